@@ -9,6 +9,18 @@ CLAIMED = {
     'C02': ('5', 'whole Crazyflie/SyncCrazyflie life cycle against a firmware model: link failure after every k-th packet, '
                  'close at seeded instants, line-level thread interleavings; callback-history grammar, bounded liveness, '
                  'no dead thread, reconnect'),
+    'C03': ('5', 'TOC download against generated device tables (sizes across the 8-bit boundary, both protocol generations) '
+                 'under duplicated, delayed and lost replies; table equality and lookup consistency at connected'),
+    'C04': ('5', 'concurrent set/read/persistent requests from several threads against a parameter store with reply delays '
+                 'and unsolicited notifications; wire encoding, refusal, issue order, reply attribution, cache == device'),
+    'C05': ('5', 'log block life cycle against a firmware log model with virtual-time sampling; accept/reject, creation '
+                 'messages, bit-exact decoding, flags follow acks, re-add after reconnect, SyncLogger iteration'),
+    'C06': ('5', 'chunked memory reads/writes from several threads with duplicated/late/error replies, link drop after every '
+                 'k-th reply and close; exact data, exactly-one completion, order, no leaked lock or record'),
+    'C07': ('5', 'real dispatcher thread fed by a simulated link with callbacks that add/remove/raise during dispatch; '
+                 'independent matcher with must/may/must-not per (packet, registration)'),
+    'C10': ('5', 'retry timers in virtual time against lost/delayed replies, shared-prefix patterns, close/reopen with timers '
+                 'pending; interval, no retransmission after answer, longest-prefix cancel, none across sessions'),
 }
 
 NA_PURE = {
